@@ -656,8 +656,9 @@ func (r *bRun) drive() {
 		doStop := func() {
 			r.stopReq = true
 			r.rec("stopReq", -1, "")
-			simrt.Close("b.feeder", inputCh)
+			// same order as hybridbuffer's outputFeeder
 			inputClosed.Signal()
+			simrt.Close("b.feeder", inputCh)
 			for {
 				c, ok := simrt.Recv2("b.feeder.drain", inputCh)
 				if !ok {
